@@ -80,6 +80,8 @@ func main() {
 		die("%v", err)
 	}
 	replace := map[string]string{}
+	mapRanges := findMapRanges(absRepo, pkgs)
+	autoRanges, skippedRanges := 0, 0
 	swapped := 0
 	uniq := 0
 	tickers := 0
@@ -176,6 +178,7 @@ func main() {
 							return true
 						}
 						uniq++
+						delete(mapRanges[path], off(r.Pos()))
 						keys := fmt.Sprintf("_simkeys%d", uniq)
 						k := fmt.Sprintf("_simk%d", uniq)
 						if id, ok := r.Key.(*ast.Ident); ok && id.Name != "_" {
@@ -255,6 +258,59 @@ func main() {
 					})
 				}
 			}
+			// every other range over a map: sorted keys, rotation chosen by the scheduler
+			ast.Inspect(f, func(n ast.Node) bool {
+				r, ok := n.(*ast.RangeStmt)
+				if !ok {
+					return true
+				}
+				mr := mapRanges[path][off(r.Pos())]
+				if mr == nil {
+					return true
+				}
+				pure := func(e ast.Expr) bool {
+					ok := true
+					ast.Inspect(e, func(n ast.Node) bool {
+						switch n.(type) {
+						case *ast.CallExpr, *ast.UnaryExpr, *ast.FuncLit:
+							ok = false
+						}
+						return ok
+					})
+					return ok
+				}
+				if !mr.ordered || r.Key == nil || r.Tok != token.DEFINE || (mr.labeled && !pure(r.X)) {
+					fmt.Fprintf(os.Stderr, "overlaygen: note: map range in %s.%s (%s) left as it is\n", pkg, mr.fn, text(r.X))
+					skippedRanges++
+					return true
+				}
+				uniq++
+				m := text(r.X)
+				var b strings.Builder
+				if !pure(r.X) {
+					fmt.Fprintf(&b, "_simm%d := %s; ", uniq, m)
+					m = fmt.Sprintf("_simm%d", uniq)
+				} else {
+					m = "(" + m + ")"
+				}
+				k := fmt.Sprintf("_simk%d", uniq)
+				if id, ok := r.Key.(*ast.Ident); ok && id.Name != "_" {
+					k = id.Name
+				}
+				fmt.Fprintf(&b, "for _, %s := range simhook.OrderedKeys(%q, %s) {", k, pkg+"."+mr.fn, m)
+				v := "_"
+				if id, ok := r.Value.(*ast.Ident); ok && id.Name != "_" {
+					v = id.Name
+				}
+				if v == "_" {
+					fmt.Fprintf(&b, " if _, _simok%d := %s[%s]; !_simok%d { continue };", uniq, m, k, uniq)
+				} else {
+					fmt.Fprintf(&b, " %s, _simok%d := %s[%s]; if !_simok%d { continue };", v, uniq, m, k, uniq)
+				}
+				edits = append(edits, edit{off(r.Pos()), off(r.Body.Lbrace) + 1, b.String()})
+				autoRanges++
+				return true
+			})
 			if len(edits) == 0 {
 				continue
 			}
@@ -309,6 +365,7 @@ func main() {
 			die("gate site %s.%s not found", gs.Pkg, gs.Func)
 		}
 	}
+	fmt.Printf("overlaygen: %d mutex/once fields, %d curated + %d other map ranges ordered (%d left), %d tickers\n", swapped, len(rangeSites), autoRanges, skippedRanges, tickers)
 	js, _ := json.MarshalIndent(map[string]any{"Replace": replace}, "", " ")
 	if err := os.WriteFile(filepath.Join(absOut, "overlay.json"), js, 0o644); err != nil {
 		die("%v", err)
